@@ -23,6 +23,9 @@ pub enum Verdict {
 pub struct PrefixResult {
     pub container: Verdict,
     pub reader: Verdict,
+    /// `clone_for_thread()` on a handle that was opened while the file was still complete (a
+    /// sample of the prefixes): a third way to get a handle for what is now a truncated file
+    pub clone_of_live_handle: Option<Verdict>,
     pub io_calls: u64,
     pub bytes_read: u64,
     pub max_alloc: usize,
@@ -40,6 +43,8 @@ pub struct PrefixJudge<'a> {
     full: &'a [u8],
     tag: String,
     world: Option<World>,
+    /// opened on the complete file; its SimFile handles share the bytes that are cut later
+    live: Option<Decompressor>,
 }
 
 impl<'a> PrefixJudge<'a> {
@@ -48,7 +53,8 @@ impl<'a> PrefixJudge<'a> {
         // reader buffer capacity varies with the case (shipped: 8 KiB)
         world.knobs.bufreader_cap = [8192usize, 8192, 8192, 512, 64][(crate::seed::fnv64(case_tag.as_bytes()) % 5) as usize];
         world.put_file(PATH, full.to_vec());
-        PrefixJudge { full, tag: case_tag.to_string(), world: Some(world) }
+        let (live, world) = run_plain(world, || Decompressor::open(PATH, DecompressorConfig { verbosity: 0 }).ok());
+        PrefixJudge { full, tag: case_tag.to_string(), world: Some(world), live: live.ok().flatten() }
     }
 
     fn cut(world: &mut World, full: &[u8], n: usize) {
@@ -135,9 +141,52 @@ impl<'a> PrefixJudge<'a> {
             Ok(Some(d)) => Verdict::Readable(d),
         };
         let reader = hang_or(reader, &world, byte_budget);
+        // 3. a handle that was opened before the truncation is cloned for another thread
+        let sampled = n < 10 || n + 12 >= full.len() || n % 61 == 0;
+        let mut world = world;
+        let mut clone_of_live_handle = None;
+        if sampled {
+            if let Some(live) = self.live.take() {
+                world.io_calls = 0;
+                world.bytes_read = 0;
+                world.io_budget_tripped = false;
+                alloc::arm(alloc_limit);
+                let (res, w2) = run_plain(world, || -> (Option<String>, Decompressor) {
+                    let r = match live.clone_for_thread() {
+                        Err(_) => None,
+                        Ok(mut d) => {
+                            let samples = d.list_samples();
+                            let mut readable = Vec::new();
+                            for s in samples.iter().take(3) {
+                                if let Ok(c) = d.get_sample(s) {
+                                    readable.push(format!("{s}:{} contigs", c.len()));
+                                }
+                            }
+                            Some(format!("clone_for_thread() of a handle opened before the truncation: listed {} samples; extracted {:?}", samples.len(), readable))
+                        }
+                    };
+                    (r, live)
+                });
+                let _ = alloc::disarm();
+                world = w2;
+                let v = match res {
+                    Err(p) => Verdict::Panic(p),
+                    Ok((None, live)) => {
+                        self.live = Some(live);
+                        Verdict::Refused
+                    }
+                    Ok((Some(d), live)) => {
+                        self.live = Some(live);
+                        Verdict::Readable(d)
+                    }
+                };
+                clone_of_live_handle = Some(hang_or(v, &world, byte_budget));
+            }
+        }
         let out = PrefixResult {
             container,
             reader,
+            clone_of_live_handle,
             io_calls: io1 + world.io_calls,
             bytes_read: br1 + world.bytes_read,
             max_alloc: max1.max(max2),
